@@ -129,6 +129,19 @@ def run_temp(env, c):
         res.update(stage="run", outcome=err_class(env, e), at=k, T=T, Tinv=Tinv)
         return res
     res.update(stage="done", outcome="ok", T=T, Tinv=Tinv)
+    # the same algorithm object used for a second run (e.g. a cross-validation loop): the schedule starts again
+    try:
+        with warnings.catch_warnings():
+            warnings.simplefilter("ignore")
+            algo._initialize_annealing()
+        T2 = [algo.temperature]
+        for k in range(1, n_iter + 1):
+            algo.current_iteration = k
+            algo._update_temperature()
+            T2.append(algo.temperature)
+        res["T_second_run"] = T2
+    except Exception as e:  # noqa
+        res["T_second_run"] = err_class(env, e)
     return res
 
 
@@ -216,6 +229,11 @@ def temp_predicate(c, res):
         if T[k] != 0 and res["Tinv"][k] != 1 / T[k]:
             fails.append((f"temperature_inv {res['Tinv'][k]!r} != 1/temperature at iteration {k}", None))
             break
+    if res.get("stage") == "done" and "T_second_run" in res and res["T_second_run"] != res["T"]:
+        t2 = res["T_second_run"]
+        fails.append(("a second run of the same algorithm object does not follow the temperature schedule again: "
+                      + (f"it starts at {t2[0]!r} instead of {res['T'][0]!r}" if isinstance(t2, list) and t2 and t2[0] != res["T"][0]
+                         else f"second run {str(t2)[:80]} vs first {str(res['T'])[:80]}"), None))
     return fails
 
 
